@@ -231,7 +231,8 @@ typeadjust(struct type *t, enum typequal *tq)
 		*tq = ptrqual;
 		break;
 	case TYPEFUNC:
-		assert(*tq == QUALNONE);
+		/* a qualifier on a function type (through a typedef) is undefined; ignore it */
+		*tq = QUALNONE;
 		t = mkpointertype(t, QUALNONE);
 		break;
 	}
